@@ -220,8 +220,8 @@ def r04_2(facts, res):
             if w is not None:
                 res.add(Finding("R04-2", key, "%s can print %r, which production %s does not derive: the serialisation is not re-parsed as the same item"
                                 % (f["path"], al.render(w), prod), f["file"], f["line"], {"witness": al.render(w)}))
-    if st["paths"] < 8:
-        raise BrokenCheck("R04-2: %d printing paths (floor 8)" % st["paths"])
+    if st["paths"] < 4:
+        raise BrokenCheck("R04-2: %d printing paths (floor 4)" % st["paths"])
 
 
 def quote_rule(facts, res):
@@ -351,8 +351,8 @@ def r04_4(facts, res):
             if bad:
                 res.add(Finding("R04-4", key, "%s writes %s between hard-coded quotes (%r): a value containing that quote is printed as text the "
                                 "parser rejects; use escape()" % (f["path"], bad, tmpl), f["file"], n.get("ln"), {}))
-    if st["instances"] < 6:
-        raise BrokenCheck("R04-4: %d quoted templates in printers (floor 6)" % st["instances"])
+    if st["instances"] < 3:
+        raise BrokenCheck("R04-4: %d quoted templates in printers (floor 3)" % st["instances"])
 
 
 def _pat_is_presence(p):
@@ -385,8 +385,8 @@ def r04_5(facts, res):
                 res.add(Finding("R04-5", "%s::%s|%s" % (ty, m, flds[0]), "%s prints field `%s` only for some of its values (refutable pattern below "
                                 "Some and no else branch): the other values are lost in a round trip" % (f["path"], flds[0]),
                                 f["file"], n.get("ln"), {}))
-    if st["instances"] < 15:
-        raise BrokenCheck("R04-5: %d conditional field prints (floor 15)" % st["instances"])
+    if st["instances"] < 9:
+        raise BrokenCheck("R04-5: %d conditional field prints (floor 9)" % st["instances"])
 
 
 IDENTITY_FIELDS = ("id", "parent_id", "context", "order_cache", "order_version", "owner")
@@ -418,8 +418,8 @@ def structural_eq(facts, res, rule):
         if bad:
             res.add(Finding(rule, ty + "|identity", "%s %s: equality by identity - two parses of the same text are not equal"
                             % (eq["path"], ", ".join(sorted(set(bad)))), eq["file"], eq["line"], {}))
-    if st["instances"] < 12:
-        raise BrokenCheck("%s: %d hand-written eq impls of information items (floor 12)" % (rule, st["instances"]))
+    if st["instances"] < 7:
+        raise BrokenCheck("%s: %d hand-written eq impls of information items (floor 7)" % (rule, st["instances"]))
 
 
 # ------------------------------------------------------------------------------------------
@@ -591,8 +591,8 @@ def r04_7(facts, res):
             ctx = ", ".join("%s %s" % (k2, "present" if v else "absent") for k2, v in sorted(a.items()) if k2 != fld) or "no other test"
             res.add(Finding("R04-7", "%s::%s|%s" % (ty, m, fld), "%s: on the path with %s the field `%s` is neither printed nor found absent: a "
                             "value stored there is lost in the serialisation" % (f["path"], ctx, fld), f["file"], f["line"], {}))
-    if st["instances"] < 6:
-        raise BrokenCheck("R04-7: %d printers with optional fields (floor 6)" % st["instances"])
+    if st["instances"] < 3:
+        raise BrokenCheck("R04-7: %d printers with optional fields (floor 3)" % st["instances"])
 
 
 def r04_8(facts, res):
@@ -657,8 +657,8 @@ def r04_8(facts, res):
             if w is not None:
                 res.add(Finding("R04-8", key, "%s can print the declaration %r, which production XMLDecl does not derive (pseudo-attributes out "
                                 "of order or malformed): the output is not well-formed" % (f["path"], al.render(w)), f["file"], f["line"], {}))
-    if st["paths"] < 4:
-        raise BrokenCheck("R04-8: %d declaration paths (floor 4)" % st["paths"])
+    if st["paths"] < 2:
+        raise BrokenCheck("R04-8: %d declaration paths (floor 2)" % st["paths"])
 
 
 def r04_9(facts, res):
@@ -762,8 +762,8 @@ def r04_11(facts, res):
         if not ok:
             res.add(Finding("R04-11", ty, "%s %s: the pretty-printed form of this item is not the checked compact form"
                             % (f["path"], ("writes %s itself" % bad) if bad else "does not write the item through Display"), f["file"], f["line"], {}))
-    if st["instances"] < 6:
-        raise BrokenCheck("R04-11: %d leaf pretty printers (floor 6)" % st["instances"])
+    if st["instances"] < 3:
+        raise BrokenCheck("R04-11: %d leaf pretty printers (floor 3)" % st["instances"])
 
 
 def run(facts, tier):
@@ -791,8 +791,8 @@ def run(facts, tier):
             if not ok:
                 res.add(Finding("R04-1", "%s|%s" % (ty, m), "%s writes nothing: an item of this kind disappears from the serialisation" % f["path"],
                                 f["file"], f["line"], {}))
-    if st["instances"] < 30:
-        raise BrokenCheck("R04-1: %d printer impls (floor 30)" % st["instances"])
+    if st["instances"] < 18:
+        raise BrokenCheck("R04-1: %d printer impls (floor 18)" % st["instances"])
     r04_2(facts, res)
     quote_rule(facts, res)
     # ---- R04-0: what the printers emit is checked against the Recommendation's productions (R04-2, R04-4), so the parser has
@@ -830,7 +830,7 @@ def run(facts, tier):
             if not ok:
                 res.add(Finding("R04-3", "%s.%s" % (ty, fld), "%s.%s is printed but not compared by PartialEq: two documents that print differently "
                                 "compare equal" % (ty, fld), eq["file"], eq["line"], {}))
-    if st3["instances"] < 20:
-        raise BrokenCheck("R04-3: %d printed fields (floor 20)" % st3["instances"])
+    if st3["instances"] < 12:
+        raise BrokenCheck("R04-3: %d printed fields (floor 12)" % st3["instances"])
     res.functions_analysed = st["instances"]
     return res
